@@ -119,7 +119,7 @@ class Rendered:
 
 
 def render_case(shape, prefix='c', kinds='$<>', label_len=1, distinct_labels=True, name_of=None,
-                single_fragment=False):
+                single_fragment=False, indep_labels=False):
     """Build the CGsmiles string of a fragmentation case.
 
     Per cut bond: a kind hole (one of ``kinds``; the partner gets the complement),
@@ -161,7 +161,9 @@ def render_case(shape, prefix='c', kinds='$<>', label_len=1, distinct_labels=Tru
         holes['kind'].append(SymStr.mk([k]))
         holes['label'].append(SymStr.mk(lab))
         desc_on.setdefault(i, []).append((k, lab, order))
-        desc_on.setdefault(j, []).append((complement_char(k), lab, order))
+        # indep_labels: the partner carries a label of its own (only meaningful under the label-insensitive convention)
+        lab2 = [sym_alnum("%s_m%d_%d" % (prefix, ci, x)) for x in range(label_len)] if indep_labels else lab
+        desc_on.setdefault(j, []).append((complement_char(k), lab2, order))
     for si, (a, b) in enumerate(shared_pairs):
         lab = [sym_alnum("%s_s%d_%d" % (prefix, si, x)) for x in range(label_len)]
         holes['kind'].append('!')
